@@ -147,7 +147,7 @@ def engine_runner(prop):
 
 
 RUNNERS = {'C10': runner_c10, 'C09': runner_c09, 'C14': runner_c14, 'C18': runner_c18, 'C20': runner_c20}
-for _p in ('C01', 'C02', 'C03', 'C05', 'C08', 'C19'):
+for _p in ('C01', 'C02', 'C03', 'C04', 'C05', 'C06', 'C07', 'C08', 'C16', 'C19'):
     RUNNERS[_p] = engine_runner(_p)
 
 
